@@ -6,7 +6,7 @@ from checks import servercommon as sc
 def run(tier):
     c = vlib.Check("C20", tier)
     vlib.build_harness()
-    ev, _ = sc.server_stage(c, "leak,mixed", "leak")
+    ev, _ = sc.server_stage(c, "leak,cfgleak,mixed", "leak")
     logs = [e for e in ev if e.get("ev") == "log"]
     sites = sorted(set(e["site"] for e in logs))
     c.notes.append("log records captured: %d from %d emission sites: %s" % (len(logs), len(sites), sites[:40]))
